@@ -384,6 +384,86 @@ def _alias_member_flag(ap, cfg, scanv):
     return out
 
 
+def _tail_scan(ck, rid, ap, cfg, last, sub, hdr_get):
+    """The X-Forwarded-For candidate is the last element ``L[-1]`` of a list from which trusted hops are removed at the
+    right-hand end.  The removal has to repeat until the last entry is not trusted: it must sit in a loop whose
+    condition tests ``L[-1] in self.trusted_downstream``; a removal guarded by a plain ``if`` takes off one hop only."""
+    L = sub.value.id
+    try:
+        idx = q.fold(sub.slice, {})
+    except q.NotFoldable:
+        raise AnalysisError("_apply_xheaders: index of the X-Forwarded-For candidate not understood: %s" % q.unparse(sub))
+    if idx != -1:
+        if idx == 0:
+            ck.ob(rid, ap, last.ast, False, "the X-Forwarded-For candidate is taken from the right-hand end of the list (closest proxy first), found index 0")
+            return
+        raise AnalysisError("_apply_xheaders: index of the X-Forwarded-For candidate not understood: %s" % q.unparse(sub))
+    ldef = single_assignment(ap.node, L)
+    if ldef is None:
+        raise AnalysisError("_apply_xheaders: the list %s is not bound exactly once" % L)
+    it = alias_expand(ap.node, ldef)
+    splits = [c for c in ast.walk(it) if isinstance(c, ast.Call) and isinstance(c.func, ast.Attribute) and c.func.attr == "split" and len(c.args) == 1 and q.is_const(c.args[0], ",")]
+    if len(splits) != 1:
+        raise AnalysisError("_apply_xheaders: construction of the list %s not understood: %s" % (L, q.unparse(ldef)))
+    rev = [c for c in ast.walk(it) if q.is_call(c, "reversed") or (isinstance(c, ast.Subscript) and isinstance(c.slice, ast.Slice) and c.slice.step is not None)]
+    if rev:
+        raise AnalysisError("_apply_xheaders: reversed list combined with a tail index is not understood")
+    ck.ob(rid, ap, ldef, any(isinstance(c, ast.Call) and isinstance(c.func, ast.Attribute) and c.func.attr == "strip" for c in ast.walk(it)), "entries are stripped of blanks before they are compared/validated")
+    g2 = hdr_get(alias_expand(ap.node, splits[0].func.value))
+    ck.ob(rid, ap, ldef, g2 is not None and g2[0] == "x-forwarded-for", "the scanned list is the X-Forwarded-For header")
+    if g2 is not None:
+        ck.ob(rid, ap, ldef, q.dotted(g2[1]) == "self.remote_ip", "without X-Forwarded-For the candidate is the current (socket) address")
+    # removals at the right-hand end
+    pm = q.parent_map(ap.node)
+
+    def is_removal(st):
+        if isinstance(st, ast.Expr) and isinstance(st.value, ast.Call) and q.dotted(st.value.func) == L + ".pop":
+            a = st.value.args
+            return not a or (len(a) == 1 and q.unparse(a[0]) == "-1")
+        if isinstance(st, ast.Delete) and len(st.targets) == 1 and q.unparse(st.targets[0]) == L + "[-1]":
+            return True
+        if isinstance(st, ast.Assign) and q.dotted(st.targets[0]) == L and q.unparse(st.value) == L + "[:-1]":
+            return True
+        return False
+
+    removals = [n for n in cfg.stmt_nodes(lambda n: n.kind == "stmt" and is_removal(n.ast))]
+    other_mut = [n for n in cfg.stmt_nodes(lambda n: n.kind == "stmt" and not is_removal(n.ast) and (L in q.assigned_paths(n.ast) or (L + "[]") in q.assigned_paths(n.ast) or any(isinstance(c, ast.Call) and isinstance(c.func, ast.Attribute) and q.dotted(c.func.value) == L and c.func.attr in ("pop", "remove", "insert", "append", "extend", "reverse", "sort", "clear") for c in q.calls(n.ast)))) if n.ast is not None and not (isinstance(n.ast, ast.Assign) and n.ast.value is ldef)]
+    if other_mut:
+        raise AnalysisError("_apply_xheaders: the list %s is modified in a way that is not understood: %s" % (L, q.unparse(other_mut[0].ast)[:80]))
+
+    def trusted_test(e):
+        """polarity-free: does ``e`` test membership of L[-1] in the trusted set?"""
+        for x in ast.walk(e):
+            if isinstance(x, ast.Compare) and len(x.ops) == 1 and isinstance(x.ops[0], (ast.In, ast.NotIn)) and q.unparse(x.left) == L + "[-1]" and q.dotted(alias_expand(ap.node, x.comparators[0])) == "self.trusted_downstream":
+                return x
+        return None
+
+    if not removals:
+        mentions = any(q.dotted(x) == "self.trusted_downstream" for x in ast.walk(ap.node))
+        if mentions:
+            raise AnalysisError("_apply_xheaders: how trusted hops are skipped in %s is not recognised" % L)
+        ck.ob(rid, ap, last.ast, False, "trusted downstream proxies at the right-hand end of X-Forwarded-For are skipped: %s[-1] is used and trusted_downstream is never consulted" % L, construct="no trusted-hop removal")
+        return
+    for n in removals:
+        ck.ob(rid, ap, n.ast, cfg.dominates(n, last) or _reaches(cfg, n, last), "trusted hops are removed before the candidate is read")
+        loops_ = [a for a in q.ancestors(pm, n.ast) if isinstance(a, (ast.While, ast.For))]
+        guarded = branch_flag(cfg, "%s[-1] in self.trusted_downstream" % L, True, [L])
+        alias_guard = False
+        for t in cfg.stmt_nodes(lambda t: t.kind == "test"):
+            x = trusted_test(t.ast)
+            if x is not None and branch_flag(cfg, q.unparse(t.ast), isinstance(x.ops[0], ast.In) if t.ast is x else True, []).get(n.id, False):
+                alias_guard = True
+        if not (guarded.get(n.id, False) or alias_guard):
+            raise AnalysisError("_apply_xheaders: removal %s is not guarded by a recognisable `%s[-1] in self.trusted_downstream` test" % (q.unparse(n.ast), L))
+        in_while = [a for a in loops_ if isinstance(a, ast.While) and trusted_test(a.test) is not None]
+        if in_while:
+            ck.ob(rid, ap, n.ast, True, "trusted hops are removed repeatedly (while the last entry is a trusted downstream proxy)")
+        elif loops_:
+            raise AnalysisError("_apply_xheaders: loop around the removal of trusted hops is not understood")
+        else:
+            ck.ob(rid, ap, n.ast, False, "the scan stops exactly at the first entry that is not a trusted downstream proxy: the removal of a trusted hop is guarded by a plain `if`, so only one hop is skipped (it has to repeat until the last entry is untrusted)", construct="single conditional removal of a trusted hop")
+
+
 def rule_precedence(ck):
     rid = "C32.precedence"
     ap = ck.func(HS, CTX + "._apply_xheaders")
@@ -453,6 +533,8 @@ def rule_precedence(ck):
             return
     else:
         ck.ob(rid, ap, last.ast, not between, "the value that gets validated is X-Real-Ip when present (it is looked up last, so it takes precedence)")
+    if isinstance(g[1], ast.Subscript) and isinstance(g[1].value, ast.Name) and isinstance(g[1].slice, (ast.Constant, ast.UnaryOp)):
+        return _tail_scan(ck, rid, ap, cfg, last, g[1], hdr_get)
     if not isinstance(g[1], ast.Name):
         if (q.dotted(g[1]) or "").startswith("self.") or isinstance(g[1], ast.Constant):
             ck.ob(rid, ap, last.ast, False, "without X-Real-Ip the X-Forwarded-For candidate is used (default of the X-Real-Ip lookup is %s)" % q.unparse(g[1]))
@@ -659,6 +741,19 @@ def _seed_flag(tree, both):
     return n > 0
 
 
+def _seed_single_pop(fn):
+    body = fn.body
+    i_xff = [i for i, st in enumerate(body) if isinstance(st, ast.Assign) and "X-Forwarded-For" in _u(st)]
+    i_for = [i for i, st in enumerate(body) if isinstance(st, ast.For)]
+    i_real = [i for i, st in enumerate(body) if isinstance(st, ast.Assign) and "X-Real-Ip" in _u(st)]
+    if not (i_xff and i_for and i_real):
+        return False
+    body[i_xff[0]] = parse_stmt("forwarded = [cand.strip() for cand in headers.get('X-Forwarded-For', self.remote_ip).split(',')]")
+    body[i_for[0]] = parse_stmt("if len(forwarded) > 1 and forwarded[-1] in self.trusted_downstream:\n    forwarded.pop()")
+    body[i_real[0]] = parse_stmt("ip = headers.get('X-Real-Ip', forwarded[-1])")
+    return True
+
+
 MUTANTS = [
     ("remote_ip assigned before it is validated (reset afterwards if invalid)", _in(HS, AP, _assign_before_validation), "C32.ip-validated"),
     ("a different variable is validated", _in(HS, AP, replace_expr(lambda n: isinstance(n, ast.Call) and q.call_attr(n) == "is_valid_ip", lambda n: parse_expr("netutil.is_valid_ip(self.remote_ip)"))), "C32.ip-validated"),
@@ -687,6 +782,7 @@ MUTANTS = [
     ("lookup errors other than NONAME answer True", _in(NU, "is_valid_ip", replace_stmt(lambda st: isinstance(st, ast.Raise) and st.exc is None, lambda st: [parse_stmt("return True")])), "C32.valid-ip"),
     ("over-long input is 'valid'", _in(NU, "is_valid_ip", lambda fn: (lambda hs: (hs[0].body.__setitem__(slice(0, len(hs[0].body)), [parse_stmt("return True")]) or True) if hs else False)([h for h in ast.walk(fn) if isinstance(h, ast.ExceptHandler) and "UnicodeError" in _u(h.type)])), "C32.valid-ip"),
     ("connections are created without the trusted proxy list", _in(HS, "HTTPServer.handle_stream", replace_expr(lambda n: isinstance(n, ast.Attribute) and _u(n) == "self.trusted_downstream", lambda n: ast.Constant(value=None))), "C32.precedence"),
+    ("seeded C32-adv5: trusted-hop scan rewritten as a single conditional pop", _in(HS, AP, lambda fn: _seed_single_pop(fn)), "C32.precedence"),
     ("X-Forwarded-For overrides X-Real-Ip", _in(HS, AP, _swap_lookup_order), "C32.precedence"),
     ("list scanned from the left", _in(HS, AP, replace_expr(lambda n: isinstance(n, ast.Call) and _u(n.func) == "reversed", lambda n: n.args[0])), "C32.precedence"),
     ("scan stops at the first *trusted* entry", _in(HS, AP, replace_expr(lambda n: isinstance(n, ast.Compare) and isinstance(n.ops[0], ast.NotIn) and "trusted_downstream" in _u(n), lambda n: ast.Compare(left=n.left, ops=[ast.In()], comparators=n.comparators))), "C32.precedence"),
